@@ -74,6 +74,10 @@ EXPLANATION += (
     ' Round 10: the .name of an open file object is judged as the path it was opened with.'
 )
 
+EXPLANATION += (
+    ' Round 11: path-valued arguments make the parameters they are bound to path-valued (propagated to a fixpoint).'
+)
+
 RULE_TEXT = (
     "one obligation per emitted value (config, log, log file, module), "
     "per removed key, per path interpolation site")
